@@ -45,6 +45,7 @@ type Scenario struct {
 	PathB     []string `json:"path_b,omitempty"`
 	Probe     string   `json:"probe,omitempty"` // kind "containsgtid": the GTID asked for
 	Note      string   `json:"note,omitempty"`
+	Big       string   `json:"big,omitempty"` // kind "big": name of a set of ref.BigSet56
 }
 
 func parseSet(s string) (replication.GTIDSet, string) {
@@ -179,6 +180,12 @@ func runChain(initKind, init string, path []string) (replication.GTIDSet, []ref.
 // runScenario re-executes sc and returns the first failed clause (nil: holds).
 func runScenario(sc Scenario) *failure {
 	switch sc.Kind {
+	case "big":
+		f := checkBig(sc.Big)
+		if f != nil {
+			f.Detail = "big set " + sc.Big + ": " + clip(f.Detail)
+		}
+		return f
 	case "pair":
 		a, ma, f := runChain(sc.InitKind, sc.Init, sc.Path)
 		if f != nil {
@@ -250,6 +257,204 @@ func runScenario(sc Scenario) *failure {
 		kids = append(kids, child{next, want, g})
 	}
 	return nil
+}
+
+func clip(s string) string {
+	if len(s) <= 1500 {
+		return s
+	}
+	return fmt.Sprintf("%s ...[%d bytes]... %s", s[:900], len(s)-1400, s[len(s)-500:])
+}
+
+// one is the set {u:n}.
+func one(u [16]byte, n int64) []ref.SIDRanges {
+	return []ref.SIDRanges{{SID: u, Ranges: []ref.Range{{A: n, B: n}}}}
+}
+
+// checkBig checks every clause of the property on one big set: the questions
+// are asked at every interval of the busiest server (first / last number of
+// the interval, the numbers just outside it, the one-member and one-interval
+// subsets, the set without that interval, the set with the gap after it
+// filled), the operations at the head, in the middle and at the tail.
+func checkBig(name string) (f *failure) {
+	if p := chk.Catch(func() { f = checkBigx(name) }); p != "" {
+		return &failure{"big:panic", p}
+	}
+	return f
+}
+
+func checkBigx(name string) *failure {
+	model, err := ref.BigSet56(name)
+	if err != nil {
+		return &failure{"scenario", err.Error()}
+	}
+	text := ref.Text56(model)
+	set, perr := parseSet(text)
+	if perr != "" {
+		return &failure{"parse-roundtrip", "canonical text: " + perr}
+	}
+	if s := set.String(); s != text {
+		return &failure{"parse-roundtrip", fmt.Sprintf("the set parsed from the canonical text (%d bytes) prints %d bytes: %s", len(text), len(s), firstDiff(text, s))}
+	}
+	twin, _ := parseSet(text)
+	if f := pairCheck(set, twin, "S", "twin of S", true, true); f != nil {
+		return f
+	}
+	// the busiest server
+	busy := 0
+	for i, e := range model {
+		if len(e.Ranges) > len(model[busy].Ranges) {
+			busy = i
+		}
+	}
+	u := model[busy].SID
+	rs := model[busy].Ranges
+	ask := func(n int64) *failure {
+		if n < 1 {
+			return nil
+		}
+		want := ref.HasRange(model, u, n)
+		g := ref.GTID56{SID: u, GNO: n}
+		if got := set.ContainsGTID(lib(g)); got != want {
+			return &failure{"containsgtid", fmt.Sprintf("S.ContainsGTID(%s) = %v, membership is %v", g.Text(), got, want)}
+		}
+		o := replication.GTIDSet(replication.Mysql56GTIDSet{})
+		o = o.AddGTID(lib(g))
+		if got := set.Contains(o); got != want {
+			return &failure{"contains", fmt.Sprintf("S.Contains({%s}) = %v, superset is %v", g.Text(), got, want)}
+		}
+		if got := o.Contains(set); got {
+			return &failure{"contains", fmt.Sprintf("{%s}.Contains(S) = true", g.Text())}
+		}
+		return nil
+	}
+	stride := 1
+	if len(rs) > 2000 {
+		stride = len(rs) / 1000
+	}
+	for k := 0; k < len(rs); k++ {
+		if k%stride != 0 && k != len(rs)-1 && k != len(rs)-2 {
+			continue
+		}
+		r := rs[k]
+		for _, n := range []int64{r.A - 1, r.A, r.B, r.B + 1, (r.A + r.B) / 2} {
+			if f := ask(n); f != nil {
+				return f
+			}
+		}
+		// one whole interval as the argument; the interval stretched by one
+		iv := []ref.SIDRanges{{SID: u, Ranges: []ref.Range{r}}}
+		ivSet, perr := parseSet(ref.Text56(iv))
+		if perr != "" {
+			return &failure{"parse-roundtrip", perr}
+		}
+		if !set.Contains(ivSet) {
+			return &failure{"contains", fmt.Sprintf("S.Contains(%q) = false, it is interval %d of S", ref.Text56(iv), k)}
+		}
+		wide := []ref.SIDRanges{{SID: u, Ranges: []ref.Range{{A: r.A, B: r.B + 1}}}}
+		wideSet, _ := parseSet(ref.Text56(wide))
+		if want := ref.Covers56(model, wide); set.Contains(wideSet) != want {
+			return &failure{"contains", fmt.Sprintf("S.Contains(%q) = %v, superset is %v (interval %d of S is %d-%d)", ref.Text56(wide), !want, want, k, r.A, r.B)}
+		}
+	}
+	// S without one interval / with one more number: head, middle, tail
+	for _, k := range []int{0, 1, len(rs) / 2, len(rs) - 2, len(rs) - 1} {
+		if k < 0 || k >= len(rs) {
+			continue
+		}
+		less := make([]ref.SIDRanges, len(model))
+		copy(less, model)
+		less[busy] = ref.SIDRanges{SID: u, Ranges: append(append([]ref.Range{}, rs[:k]...), rs[k+1:]...)}
+		lessSet, perr := parseSet(ref.Text56(less))
+		if perr != "" {
+			return &failure{"parse-roundtrip", perr}
+		}
+		if f := pairCheck(set, lessSet, "S", fmt.Sprintf("S without interval %d", k), true, false); f != nil {
+			return f
+		}
+		// AddGTID: the number after the interval (may close the gap to the next one), the first number of the dropped interval
+		for _, c := range []struct {
+			from  replication.GTIDSet
+			m     []ref.SIDRanges
+			n     int64
+			label string
+		}{{set, model, rs[k].B + 1, "S"}, {lessSet, less, rs[k].A, fmt.Sprintf("S without interval %d", k)}, {set, model, rs[k].A, "S"}} {
+			g := ref.GTID56{SID: u, GNO: c.n}
+			wantM := append(append([]ref.SIDRanges{}, c.m...), one(u, c.n)...)
+			want := ref.Text56(wantM)
+			before := c.from.String()
+			var next replication.GTIDSet
+			next = c.from.AddGTID(lib(g))
+			if got := next.String(); got != want {
+				return &failure{"addgtid:result", fmt.Sprintf("%s.AddGTID(%s) prints %d bytes, the union %d bytes: %s", c.label, g.Text(), len(got), len(want), firstDiff(want, got))}
+			}
+			if c.from.String() != before {
+				return &failure{"addgtid:receiver-changed", fmt.Sprintf("%s changed under AddGTID(%s): %s", c.label, g.Text(), firstDiff(before, c.from.String()))}
+			}
+			if !next.ContainsGTID(lib(g)) || !next.Contains(c.from) {
+				return &failure{"addgtid:not-superset", fmt.Sprintf("%s.AddGTID(%s) does not contain the GTID or the receiver", c.label, g.Text())}
+			}
+			back, perr := parseSet(want)
+			if perr != "" || !back.Equal(next) || !next.Equal(back) {
+				return &failure{"parse-roundtrip", fmt.Sprintf("%s.AddGTID(%s) is not Equal to the set parsed from its text %s", c.label, g.Text(), perr)}
+			}
+			if f := pairCheck(next, c.from, c.label+"+"+g.Text(), c.label, true, ref.Covers56(c.m, wantM)); f != nil {
+				return f
+			}
+		}
+	}
+	// every server: membership of its first and last number, of a foreign server
+	for k, e := range model {
+		if len(model) > 2000 && k%(len(model)/1000) != 0 && k != len(model)-1 {
+			continue
+		}
+		for _, n := range []int64{e.Ranges[0].A, e.Ranges[len(e.Ranges)-1].B, e.Ranges[len(e.Ranges)-1].B + 1} {
+			want := ref.HasRange(model, e.SID, n)
+			g := ref.GTID56{SID: e.SID, GNO: n}
+			if got := set.ContainsGTID(lib(g)); got != want {
+				return &failure{"containsgtid", fmt.Sprintf("S.ContainsGTID(%s) = %v, membership is %v", g.Text(), got, want)}
+			}
+			o := replication.GTIDSet(replication.Mysql56GTIDSet{}).AddGTID(lib(g))
+			if got := set.Contains(o); got != want {
+				return &failure{"contains", fmt.Sprintf("S.Contains({%s}) = %v, superset is %v", g.Text(), got, want)}
+			}
+		}
+	}
+	if set.ContainsGTID(lib(ref.GTID56{SID: foreignUUID, GNO: 1})) {
+		return &failure{"containsgtid", "S.ContainsGTID of a server that is not in S = true"}
+	}
+	// a new server added to S
+	g := ref.GTID56{SID: foreignUUID, GNO: 7}
+	want := ref.Text56(append(append([]ref.SIDRanges{}, model...), one(foreignUUID, 7)...))
+	if got := set.AddGTID(lib(g)).String(); got != want {
+		return &failure{"addgtid:result", fmt.Sprintf("S.AddGTID(%s): %s", g.Text(), firstDiff(want, got))}
+	}
+	if s := set.String(); s != text {
+		return &failure{"addgtid:receiver-changed", "S prints differently after the questions: " + firstDiff(text, s)}
+	}
+	return nil
+}
+
+func firstDiff(want, got string) string {
+	i := 0
+	for i < len(want) && i < len(got) && want[i] == got[i] {
+		i++
+	}
+	lo := i - 60
+	if lo < 0 {
+		lo = 0
+	}
+	cut := func(s string) string {
+		hi := i + 60
+		if hi > len(s) {
+			hi = len(s)
+		}
+		if lo > len(s) {
+			return ""
+		}
+		return s[lo:hi]
+	}
+	return fmt.Sprintf("first difference at byte %d: expected ...%q..., got ...%q...", i, cut(want), cut(got))
 }
 
 func pairCheck(a, b replication.GTIDSet, ta, tb string, aSupB, bSupA bool) *failure {
@@ -858,6 +1063,33 @@ func run(r *chk.Run) {
 			r.Sample(c.Class, s)
 		}
 	}
+	// big sets: the size swept over a lattice, the shape fixed
+	bigs := ref.BigSetNames(r.Thorough())
+	var bigMu sync.Mutex
+	bigSeen := map[string]bool{}
+	r.Parallel(func(shard, n int) {
+		for i := shard; i < len(bigs); i += n {
+			if f := checkBig(bigs[i]); f != nil {
+				bigMu.Lock()
+				dup := bigSeen[f.Clause]
+				bigSeen[f.Clause] = true
+				bigMu.Unlock()
+				if dup {
+					continue
+				}
+				sc := Scenario{Kind: "big", Big: bigs[i]}
+				r.Report(chk.Violation{Key: "big/" + f.Clause, What: "big set " + bigs[i] + ": " + clip(f.Detail), Kind: "big", Replay: sc, Recheck: func() string {
+					if g := runScenario(sc); g != nil {
+						return g.Clause + ": " + g.Detail
+					}
+					return ""
+				}})
+			}
+		}
+	})
+	r.Eval(int64(len(bigs)))
+	r.DistinctN(int64(len(bigs)))
+	r.Set("big_sets", fmt.Sprintf("%d big sets (ref.BigSetNames: one server with 9 .. N intervals in 4 shapes, 9 .. M servers, sizes 2^k-1 / 2^k / 2^k+1 and round numbers): parse / print, Equal with a twin, ContainsGTID and Contains of the one-member set at the first, last, middle and outside numbers of every interval (every 1/1000th above 2000), Contains of every interval and of the interval stretched by one, S against S without an interval (head, middle, tail), AddGTID after / at / into those intervals and of a new server, receiver unchanged", len(bigs)))
 	r.Set("configurations_completed", done)
 	if len(cutAt) > 0 {
 		r.Set("configurations_cut_by_budget", cutAt)
